@@ -25,6 +25,16 @@ CHECKS = {
             "Same executions as C01: the multiset of submitted jobs (call path x phase x chunk) must equal the multiset the reference interpreter denotes, no job key is submitted twice, no metadata directory receives two submissions, and calls that are disabled or map over nothing execute no job.",
             "fork naming is treated as an implementation detail (jobs are matched per call path and phase)",
             "DESIGN.md 4/C03"),
+    "C05": ("fault_enumeration",
+            "exhaustive crash-point enumeration over the numbered file-system effect history of the real runtime, restart through the real re-attach path",
+            "For 12 pipeline shapes the uninterrupted run on the real runtime gives a history of N numbered file-system effects (mrp's, via mechanically rewritten os.* calls, and the model jobs'); for EVERY n the process is made to die at effect n (plus torn variants of plain writes), the stale lock is removed and a second incarnation goes through ReattachToPipestance/Reset/RestartLocalJobs/LoadMetadata and the run loop; it must complete with the reference outputs and must not re-execute jobs whose completion marker had been written. Thorough adds a second crash at every effect of the restart for two shapes.",
+            "crash granularity = file-system call (no fsync/block model); in-flight local jobs die with mrp and recorded pids are dead; handled signals (SIGTERM unlock) need the real mrp binary and are not covered by this in-process enumeration",
+            "DESIGN.md 4/C05"),
+    "C06": ("fault_enumeration",
+            "exhaustive enumeration job x failure manifestation x enforcement level x schedule on the real runtime, dependency-closure oracle, restart after fault removal",
+            "For 8 (quick) / 12 (thorough) pipeline shapes every job of the fault-free run is made to fail in each of 12 metadata-level manifestations (error/assert files, process vanishing, non-zero exit, truncated/missing/ill-typed/extra-key _outs, bad _stage_defs) at enforcement levels disable and error, under the default schedule and with the failing job slowest; oracle: failed (never success or hang) where the manifestation is decided to be fatal, the reported fqname lies in the failing stage, no dependent call started (reference dependency closure), independent jobs untouched, and a restart without the fault completes with the reference outputs without re-running completed jobs.",
+            "process-level manifestations through the real mrjob/adapters and auto-retry are not exercised (model job writes what mrjob would); chunk-level type faults and extra keys are fatal only at --strict=error",
+            "DESIGN.md 4/C06"),
     "C18": ("exploration",
             "bounded-exhaustive string enumeration, real shell as oracle",
             "Every string of length <=3 over a 27-symbol shell-adversarial alphabet (longer over the 9 shell-active symbols, plus every single byte) is quoted by the real shellSafeQuote and evaluated by dash and bash, which must print the original bytes; whole job scripts rendered by the real RemoteJobManager.jobScript for every shipped template are executed with an argv/environment dumping program for each role (program path, argument, environment value, stdout path, work dir). Exhaustive within the stated alphabet and length bounds.",
